@@ -35,6 +35,7 @@ std::vector<VariablePtr>::iterator AnalyserExternalVariable::AnalyserExternalVar
         auto component = owningComponent(v);
 
         return (component != nullptr)
+               && (model != nullptr)
                && (owningModel(v) == model)
                && (component->name() == componentName)
                && (v->name() == variableName);
@@ -71,10 +72,11 @@ VariablePtr AnalyserExternalVariable::variable() const
 bool AnalyserExternalVariable::addDependency(const VariablePtr &variable)
 {
     auto pimplVariable = AnalyserExternalVariable::variable();
+    auto pimplModel = (pimplVariable != nullptr) ? owningModel(pimplVariable) : nullptr;
 
-    if ((pimplVariable != nullptr)
+    if ((pimplModel != nullptr)
         && (variable != nullptr)
-        && (owningModel(variable) == owningModel(pimplVariable))
+        && (owningModel(variable) == pimplModel)
         && (mPimpl->findDependency(variable) == mPimpl->mDependencies.end())
         && !areEquivalentVariables(variable, pimplVariable)) {
         mPimpl->mDependencies.push_back(variable);
